@@ -127,6 +127,10 @@ func setup() (*ocimem.Registry, error) {
 		if _, err := m.PushManifest(ctx, repo, "idx", indexManifest(), ocispec.MediaTypeImageIndex); err != nil {
 			return nil, err
 		}
+		// a manifest of no bytes at all (a media type the registry does not interpret)
+		if _, err := m.PushManifest(ctx, repo, "empty", []byte{}, "application/vnd.verif.opaque"); err != nil {
+			return nil, err
+		}
 		// a tag whose manifest has been deleted since (mutable tags: the tag is left dangling)
 		gone := []byte(`{"opaque":"deleted after it was tagged"}`)
 		d, err := m.PushManifest(ctx, repo, "dangling", gone, "application/vnd.verif.opaque")
@@ -612,7 +616,7 @@ func genScript(t *rapid.T) Script {
 	ref := func() string {
 		switch rapid.IntRange(0, 6).Draw(t, "refKind") {
 		case 0, 1:
-			return rapid.SampledFrom([]string{"latest", "v1", "idx", "list", "dangling"}).Draw(t, "knownTag")
+			return rapid.SampledFrom([]string{"latest", "v1", "idx", "list", "dangling", "empty"}).Draw(t, "knownTag")
 		case 2:
 			return gen.Tag().Draw(t, "validTag")
 		case 3:
@@ -731,7 +735,7 @@ func genScript(t *rapid.T) Script {
 var prop = &vt.Prop[Script]{
 	ID:   "C06",
 	Name: "ServeAnyRequest",
-	Rule: "requests built by hand (so that unparseable paths are reachable) and served in-process by ociserver over a recording, close-tracking wrapper of a pre-populated ocimem (3 repositories incl. a/blobs/uploads, blobs, image + index manifests with subject, tags - one of them left dangling by the deletion of its manifest -, an upload in progress; an eighth of the backends hand out readers that fail after 0-19 bytes: the response is then an error document or exactly the bytes delivered, never content with something appended; an eighth of the backends are read-only or fail every call with a fixed OCI error, handing back nil readers and writers) under every Options combination, a quarter of the time with a backend that rotates upload ids: method in {GET,HEAD,PUT,POST,PATCH,DELETE,OPTIONS,'',lower case,garbage}; path = one of 8 endpoint templates with slots from known / valid (routing words, 255-1000 byte names) / hostile names, digests, tags and upload ids (incl. ids whose base64 form needs the URL-safe alphabet), then mutated (segment dropped / duplicated / emptied, trailing slash, double slash, other prefix); query n,last,digest,mount,from each absent / empty / valid / malformed / repeated, raw malformed queries; Range, Content-Range, Content-Type headers from valid and boundary values (0-0, 5-4, 1-0, MaxInt64, negative, non-numeric, lone '-' and ',' forms, generated strings over the range alphabet); bodies (empty, 1 byte, blob, valid image / index manifests, truncated JSON) with matching, unknown (-1) and mismatching Content-Length; oracle = no panic; status >= 400 => OCI JSON error document whose status equals the specification's for its code; 2xx => the endpoint's mandated headers (Location - for uploads naming the id the backend's writer reports now -, Docker-Content-Digest, Range, Content-Range consistent with the body, Content-Length == body); no backend call with a repository, tag or digest that an independent reference reading of the grammars rejects; every reader and writer obtained from the backend closed; non-trivial = the request reached a handler or was rejected for a reason other than a foreign path; distinct = (method, template, mutation, status, header set, query)",
+	Rule: "requests built by hand (so that unparseable paths are reachable) and served in-process by ociserver over a recording, close-tracking wrapper of a pre-populated ocimem (3 repositories incl. a/blobs/uploads, blobs, image + index manifests with subject, tags - one naming a manifest of zero bytes, one left dangling by the deletion of its manifest -, an upload in progress; an eighth of the backends hand out readers that fail after 0-19 bytes: the response is then an error document or exactly the bytes delivered, never content with something appended; an eighth of the backends are read-only or fail every call with a fixed OCI error, handing back nil readers and writers) under every Options combination, a quarter of the time with a backend that rotates upload ids: method in {GET,HEAD,PUT,POST,PATCH,DELETE,OPTIONS,'',lower case,garbage}; path = one of 8 endpoint templates with slots from known / valid (routing words, 255-1000 byte names) / hostile names, digests, tags and upload ids (incl. ids whose base64 form needs the URL-safe alphabet), then mutated (segment dropped / duplicated / emptied, trailing slash, double slash, other prefix); query n,last,digest,mount,from each absent / empty / valid / malformed / repeated, raw malformed queries; Range, Content-Range, Content-Type headers from valid and boundary values (0-0, 5-4, 1-0, MaxInt64, negative, non-numeric, lone '-' and ',' forms, generated strings over the range alphabet); bodies (empty, 1 byte, blob, valid image / index manifests, truncated JSON) with matching, unknown (-1) and mismatching Content-Length; oracle = no panic; status >= 400 => OCI JSON error document whose status equals the specification's for its code; 2xx => the endpoint's mandated headers (Location - for uploads naming the id the backend's writer reports now -, Docker-Content-Digest, Range, Content-Range consistent with the body, Content-Length == body); no backend call with a repository, tag or digest that an independent reference reading of the grammars rejects; every reader and writer obtained from the backend closed; non-trivial = the request reached a handler or was rejected for a reason other than a foreign path; distinct = (method, template, mutation, status, header set, query)",
 	Gen:  genScript,
 	Run:  run,
 }
